@@ -24,25 +24,50 @@ META = {
                  'property_wizard.py + differential correspondence and direct predicates on generated class source text',
     'design_ref': 'DESIGN.md section 4 C16',
     'theorems': ['C16_matrix', 'C16_matrix_size', 'C16_matrix_both', 'C16_signature', 'C16_many', 'C16_many_fields_first',
-                 'C16_assign', 'C16_factory_fresh', 'C16_readonly_untouched'],
-    'tables': [],
+                 'C16_assign', 'C16_factory_fresh', 'C16_readonly_untouched',
+                 'C16_defaults_source_tie', 'C16_defaults_source_unique', 'C16_process_field_source_tie', 'C16_defaults_spec',
+                 'C16_defaults_union_none', 'C16_defaults_union_first', 'C16_defaults_union_none_iff',
+                 'C16_defaults_union_none_any_order', 'C16_defaults_literal_first', 'C16_defaults_generic_origin',
+                 'C16_defaults_factory_iff_collection', 'C16_defaults_union_order_matters', 'C16_defaults_literal_order_matters'],
+    'tables': ['PropWizDefaultsAlg'],
     'level_text': ('Theorems proved in Coq about an executable model of property_wizard.py + the part of dataclasses it relies on: '
                    'the whole style x default-kind x annotation-kind matrix by computation, and for ALL declaration lists with distinct '
                    'public names (any length, any types, any defaults) and all argument subsets: setter log, getter values and '
-                   'constructor signature equal the per-declaration specification. The model is re-validated against the '
+                   'constructor signature equal the per-declaration specification. The zero-value derivation '
+                   '(_process_field, _default_from_annotation/_type/_generic_type/_typing_args) is TRANSLATED FROM THE CURRENT SOURCE TEXT '
+                   'on every run (branch order, caught exceptions, callees) and proved equal to the model for ALL annotations of the grammar '
+                   '(classes incl. collection subclasses and user classes with/without a no-argument constructor, Union/Optional and Literal in '
+                   'any member order, generic collections, Annotated with Field extras, resolvable / unresolvable forward references); for '
+                   'all of them the derived default is proved to be None iff NoneType is a Union member (any position), else the zero value '
+                   'of the FIRST member / first Literal value / the origin class, a default_factory exactly for list/dict/set and their '
+                   'subclasses, and order-sensitive where Python\'s == on typing objects is not. The model is re-validated against the '
                    'implementation on every run; the specification is also tested directly on the implementation.'),
-    'level_note': ('Trusted: Coq kernel + vm_compute; the hand-written model (no inheritance; typing objects abstracted to seven '
-                   'annotation kinds; dataclasses reduced to "class attribute = default, missing argument passes it to the setter"); '
-                   'the correspondence harness. typing/dataclasses internals are exercised, not proved.'),
+    'level_note': ('Trusted: Coq kernel + vm_compute; the hand-written model of the class machinery (no inheritance in the Coq model - '
+                   'chains of property_wizard classes are checked by the direct predicate only; dataclasses reduced to "class attribute = '
+                   'default, missing argument passes it to the setter"); the primitives of model/PropWizObj.v (what get_args / get_origin / '
+                   'is_generic / a no-argument call / isinstance answer on each kind of annotation object - the four derivation functions '
+                   'themselves are translated from the source, not hand-written); the translator harness/tables/PropWizDefaultsAlg.py; the '
+                   'correspondence harness. typing/dataclasses internals are exercised, not proved.'),
     'rule': ('matrix: every cell style(4) x default kind(14, incl. factories returning deque / user object / ever-new value) x annotation '
              'kind(~40) + the both-annotated variant (2 orders x 5 x 4 x kinds), one class each, 4 constructor calls + later '
              'assignment; random: classes of 1-6 declarations (field properties in the four styles, plain fields, read-only and '
              'ordinary properties), layouts blocks / fields-first / random interleaving, random argument subsets; exotic: shapes '
-             'outside the property domain (model comparison only). Non-trivial = class with >= 2 declarations or a default that is '
+             'outside the property domain (model comparison only); probe: ~1000 (quick) / ~9000 (thorough) annotations of the whole '
+             'grammar through _default_from_annotation in ONE interpreter (pairs that are == in Python with reordered members right '
+             'after each other), implementation vs model vs translated source vs Coq specification vs Python reference; grammar: classes '
+             'of 2-6 field properties with such annotations (reordered pairs in one class), first instance built without arguments and '
+             'its collections mutated, later instances must receive empty ones; inheritance: chains of 2-3 property_wizard classes '
+             '(direct predicate only). Non-trivial = class with >= 2 declarations or a default that is '
              'not the plain type zero; distinct = distinct (source text, calls).'),
-    'trusted_base': ['model coq/model/PropWiz.v abstracts typing objects to annotation kinds and dataclasses to default/argument passing '
-                     '(validated by correspondence on generated source text)'],
-    'assumptions': ['no inheritance between property_wizard classes (the model class has no bases)',
+    'trusted_base': ['model coq/model/PropWiz.v abstracts dataclasses to default/argument passing (validated by correspondence on '
+                     'generated source text)',
+                     'model coq/model/PropWizObj.v: answers of typing_compat / typing / isinstance / a no-argument call per kind of '
+                     'annotation object (validated by the probe stream: every generated annotation goes through the real '
+                     '_default_from_annotation and through the translated functions)',
+                     'translator harness/tables/PropWizDefaultsAlg.py (fail-closed, pattern-directed; the pair (cls_annotations, field) is '
+                     'represented by the object cls_annotations.get(field))'],
+    'assumptions': ['the Coq model has no base classes; chains of property_wizard classes (each declaring the metaclass) are covered by the '
+                    'direct predicate on the implementation only',
                     'field names are not attributes of object/type and do not shadow names used by later annotations',
                     'plain class-level defaults are immutable values; mutable defaults come from default_factory'],
 }
@@ -52,18 +77,20 @@ META = {
 CONC_SRC = {'int': 'int', 'str': 'str', 'float': 'float', 'bool': 'bool', 'bytes': 'bytes', 'tuple': 'tuple',
             'frozenset': 'frozenset', 'list': 'list', 'dict': 'dict', 'set': 'set',
             'datetime': 'datetime.datetime', 'any': 'Any', 'orddict': 'collections.OrderedDict', 'defdict': 'collections.defaultdict',
-            'counter': 'collections.Counter', 'mylist': 'MyList'}
+            'counter': 'collections.Counter', 'mylist': 'MyList', 'myset': 'MySet', 'userobj': 'Gear', 'deque': 'collections.deque'}
 CONC_COQ = {'int': 'CInt', 'str': 'CStr', 'float': 'CFloat', 'bool': 'CBool', 'bytes': 'CBytes', 'tuple': 'CTuple',
             'frozenset': 'CFrozenset', 'list': 'CList', 'dict': 'CDict', 'set': 'CSet', 'datetime': 'CNoZero', 'any': 'CNoZero',
-            'orddict': 'COrdDict', 'defdict': 'CDefDict', 'counter': 'CCounter', 'mylist': 'CMyList'}
+            'orddict': 'COrdDict', 'defdict': 'CDefDict', 'counter': 'CCounter', 'mylist': 'CMyList', 'myset': 'CMySet',
+            'userobj': 'CUserObj', 'deque': 'CDeque'}
 GENS = [('List[int]', 'list'), ('list[str]', 'list'), ('Dict[str, int]', 'dict'), ('dict[str, int]', 'dict'),
         ('Set[bool]', 'set'), ('set[int]', 'set'), ('Tuple[int, ...]', 'tuple'), ('tuple[int, str]', 'tuple'),
         ('FrozenSet[int]', 'frozenset'), ('Sequence[int]', 'abstract'), ('Mapping[str, int]', 'abstract'),
         ('Iterable[str]', 'abstract'), ("List['Undefined_zz']", 'list'), ('Type[int]', 'abstract'),
         ('Callable[[], int]', 'abstract'),
         # typing aliases of dict SUBCLASSES (these aliases CAN be instantiated)
-        ('OrderedDict[str, int]', 'orddict'), ('DefaultDict[str, int]', 'defdict'), ('Counter[str]', 'counter')]
-INST_ALIASES = {'OrderedDict[str, int]', 'DefaultDict[str, int]', 'Counter[str]'}
+        ('OrderedDict[str, int]', 'orddict'), ('DefaultDict[str, int]', 'defdict'), ('Counter[str]', 'counter'),
+        ('Deque[int]', 'deque')]
+INST_ALIASES = {'OrderedDict[str, int]', 'DefaultDict[str, int]', 'Counter[str]', 'Deque[int]'}
 
 
 def gen_inst(text):
@@ -166,7 +193,10 @@ def ty_coq(t):
 ZERO = {'int': 'I0', 'str': 'S', 'float': 'Zfloat', 'bool': 'B0', 'bytes': 'Zbytes', 'tuple': 'Ztuple',
         'frozenset': 'Zfrozenset', 'list': ('fresh', 'list'), 'dict': ('fresh', 'dict'), 'set': ('fresh', 'set'),
         'datetime': 'N', 'any': 'N', 'abstract': 'N', 'classvar': 'N',
-        'orddict': ('fresh', 'orddict'), 'defdict': ('fresh', 'defdict'), 'counter': ('fresh', 'counter'), 'mylist': ('fresh', 'mylist')}
+        'orddict': ('fresh', 'orddict'), 'defdict': ('fresh', 'defdict'), 'counter': ('fresh', 'counter'), 'mylist': ('fresh', 'mylist'),
+        # a user subclass of set: fresh per instance; a user class with a no-argument constructor / deque: "the type's zero
+        # value" (property text) - the one instance the no-argument call returns
+        'myset': ('fresh', 'myset'), 'userobj': 'Zuserobj', 'deque': 'Zdeque'}
 
 
 def v_tok(vj):
@@ -333,6 +363,15 @@ class MyList(list):
     pass
 
 
+class MySet(set):
+    pass
+
+
+class Gear:
+    def __init__(self):
+        self.parts = []
+
+
 LOG = []
 ORIG = {}
 CALLS = []
@@ -376,7 +415,8 @@ def class_src(body):
 
 # --------------------------------------------------------------------------- generators
 _BAD = set(dir(builtins)) | set(dir(typing)) | set(keyword.kwlist) | set(dir(type)) | {
-    'field', 'dataclass', 'datetime', 'property_wizard', 'self', 'value', 'match', 'case', 'type', 'K', 'LOG', 'ORIG'}
+    'field', 'dataclass', 'datetime', 'property_wizard', 'self', 'value', 'match', 'case', 'type', 'K', 'LOG', 'ORIG',
+    'fac', 'collections', 'itertools', 'MyList', 'MySet', 'Gear', 'Axle', 'CALLS'}
 
 
 def gen_name(r, used):
@@ -406,7 +446,7 @@ def gen_fd(r):
 
 
 BASIC = [['conc', c] for c in ['int', 'str', 'float', 'bool', 'bytes', 'tuple', 'frozenset', 'list', 'dict', 'set', 'datetime', 'any',
-                               'orddict', 'defdict', 'counter', 'mylist']]
+                               'orddict', 'defdict', 'counter', 'mylist', 'myset', 'userobj', 'deque']]
 
 
 def gen_lit(r):
@@ -698,7 +738,7 @@ Definition conc_name (c : conc) : pstr :=
   match c with CInt => S "int" | CStr => S "str" | CFloat => S "float" | CBool => S "bool" | CBytes => S "bytes"
   | CTuple => S "tuple" | CFrozenset => S "frozenset" | CList => S "list" | CDict => S "dict" | CSet => S "set"
   | CNoZero => S "nozero" | COrdDict => S "orddict" | CDefDict => S "defdict" | CCounter => S "counter"
-  | CMyList => S "mylist" end.
+  | CMyList => S "mylist" | CMySet => S "myset" | CUserObj => S "userobj" | CDeque => S "deque" end.
 Definition show_fac (f : factory) : pstr :=
   match f with FacConc c => conc_name c | FacUser t => S "user" ++ show_N t end.
 Definition show_value (v : value) : pstr :=
@@ -934,6 +974,323 @@ def exotic_cases(ctx):
     return out
 
 
+# --------------------------------------------------------------------------- annotation grammar (zero-value derivation)
+class Nested:
+    """typing caches aliases by EQUALITY of their parameters and Union[int, str] == Union[str, int], Literal[1, 2] ==
+    Literal[2, 1]: an alias built AROUND such an object (Annotated[Union[str, int], 'm'], a string evaluated to it is
+    fine) can come back as the one built earlier in the same interpreter with the members in the other order.  That is
+    Python, not the library: below the top level every member set keeps the order it was first written with (per
+    interpreter); at the top level - where the library sees exactly what was written - every order is generated."""
+    def __init__(self):
+        self.first = {}
+
+    def canon(self, t):
+        if t[0] == 'union':
+            args = [self.canon(a) for a in t[1]]
+            key = ('u',) + tuple(sorted(json.dumps(a) for a in args))
+            args = self.first.setdefault(key, args)
+            return ['union', args, 'Union']
+        if t[0] == 'lit':
+            key = ('l',) + tuple(sorted(json.dumps(v) for v in t[1]))
+            return ['lit', self.first.setdefault(key, t[1])]
+        if t[0] == 'annot':
+            return ['annot', self.canon(t[1]), t[2]]
+        return t
+
+
+RICH_CLASSES = [['conc', c] for c in ['int', 'str', 'float', 'bool', 'bytes', 'tuple', 'frozenset', 'list', 'dict', 'set',
+                                       'datetime', 'any', 'orddict', 'defdict', 'counter', 'mylist', 'myset', 'userobj', 'deque']]
+COLLECTIONS = [['conc', c] for c in ['list', 'dict', 'set', 'orddict', 'defdict', 'counter', 'mylist', 'myset']]
+
+
+def rich_member(r, depth):
+    m = r.random()
+    if m < 0.30:
+        return r.choice(RICH_CLASSES)
+    if m < 0.45:
+        return r.choice(COLLECTIONS)
+    if m < 0.68:
+        g = r.choice(GENS)
+        return ['gen', g[0], g[1]]
+    if m < 0.74:
+        return gen_lit(r)
+    if m < 0.80:
+        return ['ref', r.choice(['Undefined_%d' % r.randint(0, 9), 'int', 'MyList']), None]   # a ForwardRef member is never evaluated
+    if depth < 2:
+        extras = [['field', gen_fd(r)] if r.random() < 0.4 else ['other', repr(r.choice(['meta', 'x']))]
+                  for _ in range(r.choice([1, 1, 2]))]
+        inner = rich_member(r, 2)
+        if inner[0] in ('ref', 'lit'):
+            inner = r.choice(RICH_CLASSES)
+        return ['annot', inner, extras]
+    return r.choice(RICH_CLASSES)
+
+
+def rich_union(r, depth):
+    n = r.choice([2, 2, 3, 4])
+    args, seen = [], set()
+    while len(args) < n:
+        a = rich_member(r, depth)
+        key = json.dumps(a[1] if a[0] == 'annot' else a)
+        if key in seen:
+            continue
+        seen.add(key)
+        args.append(a)
+    if r.random() < 0.35:
+        args.insert(r.randint(0, len(args)), ['nonetype'])       # None at ANY position, the first included
+    return ['union', args, r.choice(['Union', 'Optional', 'bar'])]
+
+
+def rich_lit(r):
+    pool = [['int', 1], ['str', '1'], ['int', 0], ['str', 'r+'], ['bool', True], ['none'], ['str', ''], ['int', 7], ['str', 'w']]
+    return ['lit', r.sample(pool, r.choice([1, 2, 3, 4]))]
+
+
+def rich_ty(r, depth=0, allow_field=True):
+    m = r.random()
+    if m < 0.16:
+        return r.choice(RICH_CLASSES)
+    if m < 0.24:
+        return r.choice(COLLECTIONS)
+    if m < 0.36:
+        g = r.choice(GENS)
+        return ['gen', g[0], g[1]]
+    if m < 0.58:
+        return rich_union(r, depth)
+    if m < 0.68:
+        return rich_lit(r)
+    if m < 0.72:
+        return ['ref', 'Undefined_%d' % r.randint(0, 9), None]
+    if m < 0.80 and depth == 0:
+        t = rich_ty(r, 1, allow_field)
+        src = ty_src(t)
+        if 'Undefined' not in src and "'" not in src and '"' not in src:
+            return ['ref', src, t]
+        return t
+    if depth < 2:
+        extras = []
+        for _ in range(r.choice([1, 1, 2, 3, 4])):
+            if allow_field and r.random() < 0.5:
+                extras.append(['field', gen_fd(r)])
+            else:
+                extras.append(['other', r.choice(["'meta'", '123', "'Hello world!'"])])
+        inner = rich_ty(r, depth + 1, allow_field)
+        if inner[0] == 'annot':       # typing flattens nested Annotated
+            return ['annot', inner[1], inner[2] + extras]
+        if inner[0] == 'ref':
+            # a string directly under Annotated IS evaluated by the library
+            if inner[2] is None:
+                return ['annot', inner, extras]
+            if inner[2][0] == 'annot':
+                return ['annot', inner[2][1], inner[2][2] + extras]
+            if "'" in inner[1] or '"' in inner[1]:
+                inner = inner[2]
+        return ['annot', inner, extras]
+    return r.choice(RICH_CLASSES)
+
+
+def reorder(r, t):
+    """an annotation that is == to `t` in Python with the members in another order (top level only)"""
+    if t[0] == 'union' and len(t[1]) >= 2:
+        args = list(t[1])
+        while args == t[1]:
+            r.shuffle(args)
+        return ['union', args, 'Union']
+    if t[0] == 'lit' and len(t[1]) >= 2:
+        vs = list(t[1])
+        while vs == t[1]:
+            r.shuffle(vs)
+        return ['lit', vs]
+    return None
+
+
+def canon_nested(nest, t):
+    """top level free, everything below in first-written order"""
+    if t[0] == 'union':
+        return ['union', [nest.canon(a) for a in t[1]], t[2]]
+    if t[0] == 'annot':
+        return ['annot', nest.canon(t[1]), t[2]]
+    if t[0] == 'ref' and t[2] is not None:
+        t2 = canon_nested(nest, t[2])
+        return ['ref', ty_src(t2), t2]
+    return t
+
+
+def expect_tok(x):
+    return 'fresh:' + x[1] if isinstance(x, tuple) else x
+
+
+def probe_anns(ctx):
+    r = ctx.sub_rng('probe')
+    nest = Nested()
+    n = 1000 if ctx.tier == 'quick' else 9000
+    out = []
+    while len(out) < n:
+        t = canon_nested(nest, rich_ty(r))
+        out.append(t)
+        t2 = reorder(r, t)
+        if t2 is not None and r.random() < 0.7:
+            out.append(t2)                      # == in Python, another order, same interpreter, right after
+    return out
+
+
+PROBE_PRELUDE = r"""
+Definition show_noid (v : value) : pstr :=
+  match v with VNew f _ => S "O" ++ show_fac f | _ => show_value v end.
+Definition show_fdef (fd : fdef) : pstr :=
+  match fd_factory fd with
+  | Some f => S "factory=" ++ show_noid (fst (call_factory f 0))
+  | None => match fd_default fd with Some v => S "default=" ++ show_noid v | None => S "empty" end
+  end.
+Definition show_routed (x : routed) : pstr :=
+  match x with
+  | RValue v => show_noid v
+  | RFresh f => match fst (call_factory f 0) with VNew g _ => S "fresh:" ++ show_fac g | v => show_value v end
+  end.
+(* the hand-written model, the functions translated from the source text, and the Coq specification *)
+Definition show_probe (t : ty) : pstr :=
+  show_fdef (dfa t) ++ S "|" ++ show_fdef (default_from_annotation_src dfa_obj (OT t)) ++ S "|" ++ show_routed (implied t).
+"""
+
+
+def effective(obs):
+    """what the setter would receive for a Field observed by the probe"""
+    if obs == 'empty':
+        return 'N'
+    k, v = obs.split('=', 1)
+    if k == 'factory' and v.startswith('O'):
+        return 'fresh:' + v[1:]
+    return v
+
+
+def grammar_cases(ctx):
+    """classes whose field properties take their default from annotations of the whole grammar; pairs of == annotations
+    with reordered members in ONE class; first instance built without arguments and MUTATED, second built without
+    arguments must still receive empty collections"""
+    r = ctx.sub_rng('grammar')
+    out = []
+    n = 110 if ctx.tier == 'quick' else 1400
+    for i in range(n):
+        nest = Nested()
+        used, decls = set(), []
+        k = r.choice([2, 3, 4, 5, 6])
+        while len(decls) < k:
+            name = gen_name(r, used)
+            used.add('_' + name)
+            st = r.choice(['PubUnder', 'PubPub', 'UnderPub', 'UnderUnder', 'PubPub', 'UnderUnder'])
+            rhs = None if r.random() < 0.75 else ['fd', {}]
+            if st in ('PubPub', 'UnderUnder'):
+                rhs = r.choice([None, None, ['val', gen_value(r)], ['fd', gen_fd(r)]])   # shadowed by the property anyway
+            t = canon_nested(nest, rich_ty(r))
+            decls.append({'kind': 'prop', 'style': st, 'name': name, 'ty': t, 'rhs': rhs})
+            t2 = reorder(r, t)
+            if t2 is not None and r.random() < 0.6:
+                name2 = gen_name(r, used)
+                used.add('_' + name2)
+                decls.append({'kind': 'prop', 'style': r.choice(['PubPub', 'UnderUnder', 'PubUnder', 'UnderPub']), 'name': name2,
+                              'ty': t2, 'rhs': None})
+        how = r.choice(['blocks', 'fields_first', 'mixed'])
+        calls = [{'args': {}, 'assign': [], 'mutate': True}, {'args': {}, 'assign': []}] + gen_calls(r, decls, 2)[1:]
+        calls[-1]['mutate'] = True
+        calls.append({'args': {}, 'assign': []})
+        out.append(make_case(decls, layout(decls, how, r), calls, 'grammar/' + how))
+    return out
+
+
+# --------------------------------------------------------------------------- inheritance (direct predicate only)
+HEADER0 = HEADER[:HEADER.rindex('@dataclass')]
+STYLES4 = ['PubUnder', 'PubPub', 'UnderPub', 'UnderUnder']
+F95 = 'F95-subclass-setter-gets-base-property-object'
+
+
+def chain_src(levels):
+    out, prev = HEADER0, None
+    for i, body in enumerate(levels):
+        name = 'K' if i == len(levels) - 1 else 'K%d' % i
+        out += '@dataclass\nclass %s(%smetaclass=property_wizard):\n' % (name, prev + ', ' if prev else '')
+        out += '\n'.join([l for s in body for l in stmt_src(s)] or ['    pass']) + '\n\n\n'
+        prev = name
+    return out
+
+
+def declares(rhs):
+    return rhs is not None and (rhs[0] == 'val' or 'default' in rhs[1] or 'factory' in rhs[1])
+
+
+def chain_decl(r, name, override, force_prop=False):
+    """one declaration of a class in a chain.  Every field has a default (dataclasses' ordering rule across the MRO).
+    An override in the underscored-property or plain style carries its own class-level value: without one, Python's
+    attribute lookup finds the BASE's class attribute (that is dataclasses' own rule for `x: T` in a subclass).  A field
+    property is overridden by a field property (a plain field declared over it is no longer "a property paired with a
+    field" of the subclass: whether the base's setter still runs then depends on dataclasses removing the class attribute)."""
+    if force_prop or r.random() < 0.7:
+        st, rhs = r.choice(STYLES4), gen_rhs(r)
+        if override and st == 'UnderPub' and rhs is None:
+            rhs = ['val', gen_value(r)]
+        two = st in ('PubUnder', 'UnderPub') and declares(rhs)
+        return {'kind': 'prop', 'style': st, 'name': name, 'ty': gen_ty(r, allow_field=not two), 'rhs': rhs}
+    rhs = ['val', gen_value(r)] if r.random() < 0.6 else ['fd', gen_fd(r)]
+    if not declares(rhs):
+        rhs = ['val', gen_value(r)]
+    return {'kind': 'plain', 'name': name, 'ty': gen_ty(r, allow_field=False), 'rhs': rhs}
+
+
+def inherit_cases(ctx):
+    """chains of 2-3 classes, each `@dataclass class Ki(K<i-1>, metaclass=property_wizard)`: field properties and plain
+    fields added per level, earlier ones overridden by a full re-declaration (any style / a plain field).  Expected: the
+    constructor of the last class has the fields in first-declaration order over the chain (dataclasses), each with the
+    default of its LAST declaration, routed through the setter of its last declaration."""
+    r = ctx.sub_rng('inherit')
+    out = []
+    n = 70 if ctx.tier == 'quick' else 700
+    for i in range(n):
+        depth = r.choice([2, 2, 3])
+        used, flat, levels = set(), [], []
+        region = False
+        for lv in range(depth):
+            decls = []
+            for _ in range(r.choice([1, 2, 2, 3])):
+                cands = [d for d in flat if d['name'] not in [e['name'] for e in decls]]
+                if lv and cands and r.random() < 0.45:
+                    old = r.choice(cands)
+                    decls.append(chain_decl(r, old['name'], True, force_prop=old['kind'] == 'prop'))
+                else:
+                    name = gen_name(r, used)
+                    used.add('_' + name)
+                    decls.append(chain_decl(r, name, False))
+            body = layout(decls, r.choice(['blocks', 'fields_first', 'mixed']), r)
+            # shape of finding F95: the subclass redefines only the PROPERTY of a field property declared in a base
+            cands = [d for d in flat if d['kind'] == 'prop' and d['name'] not in [e['name'] for e in decls]]
+            if lv and cands and r.random() < 0.12:
+                body.append(('prop', r.choice(cands)['name'], True))
+                region = True
+            levels.append(body)
+            for d in decls:
+                k = next((j for j, e in enumerate(flat) if e['name'] == d['name']), None)
+                if k is None:
+                    flat.append(d)
+                else:
+                    flat[k] = d
+        calls = gen_calls(r, flat, 3)
+        out.append({'tag': 'inherit/%d' % depth, 'decls': flat, 'body': None, 'calls': calls, 'queries': [],
+                    'getters': [d['name'] for d in flat], 'src': chain_src(levels), 'domain': True, 'nomodel': True,
+                    'region': F95 if region else None})
+    return out
+
+
+def replay_known(ctx):
+    """the witnesses of the open findings listed in known_findings.d/C16.json"""
+    f = ctx.finding(F95)
+    if f is None:
+        return
+    still = False
+    for w in f['witness']['classes']:
+        got = ctx.impl('c16', {'classes': [{'src': w['src'], 'cls': 'K', 'queries': [], 'getters': w['getters'],
+                                            'calls': w['calls']}]})['classes'][0]
+        still = still or ('=P' in got.split('get=')[0] and got != w['expected'])
+    ctx.known_finding(F95, still_fails=still)
+
+
 def payload(cases):
     return {'classes': [{'src': c['src'], 'cls': 'K', 'queries': c['queries'], 'getters': c['getters'], 'calls': c['calls']}
                         for c in cases]}
@@ -967,15 +1324,23 @@ def coq_retry(ctx, exprs, imports, prelude):
 
 
 def run(ctx):
-    cases = matrix_cases() + random_cases(ctx)
+    cases = matrix_cases() + random_cases(ctx) + grammar_cases(ctx)
     ex = exotic_cases(ctx)
-    allc = cases + ex
-    impl = ctx.impl('c16', payload(allc))['classes']
+    replay_known(ctx)
+    allc = cases + ex + inherit_cases(ctx)
+    anns = probe_anns(ctx)
+    pl = payload(allc)
+    pl['probe'] = {'header': HEADER + '    pass\n', 'anns': [ty_src(t) for t in anns]}
+    res = ctx.impl('c16', pl)
+    impl = res['classes']
+    run_probe(ctx, anns, res['probe'])
 
     # ---- model side ----
     model = None
     try:
-        model = [renumber(t) for t in coq_retry(ctx, [model_expr(c) for c in allc], ['PropWiz'], prelude=PRELUDE)]
+        modeled = [c for c in allc if not c.get('nomodel')]
+        texts = [renumber(t) for t in coq_retry(ctx, [model_expr(c) for c in modeled], ['PropWiz'], prelude=PRELUDE)]
+        model = {id(c): t for c, t in zip(modeled, texts)}
     except Exception as e:
         ctx.broken_tie('model evaluation failed: %s' % str(e)[:800])
 
@@ -997,22 +1362,68 @@ def run(ctx):
                     ctx.hist('ann_kind', d['ty'][0])
                     ctx.hist('default_kind', 'none' if d['rhs'] is None else (d['rhs'][0] if d['rhs'][0] == 'val' else
                                                                               'field_' + ('default' if 'default' in d['rhs'][1] else 'factory' if 'factory' in d['rhs'][1] else 'empty')))
-            if got != exp and len(ctx.violations) < 8:
+            if got != exp and c.get('region') and ctx.is_open_region(c['region']):
+                ctx.hist('known_region', c['region'])
+            elif got != exp and len(ctx.violations) < 8:
                 x, y = first_diff(exp, got)
                 ctx.violation('field-property class behaves differently from the specification (%s): expected %r, observed %r'
                               % (c['tag'], x, y), replay_obj(c))
         # ---- correspondence ----
-        if model is not None:
+        if model is not None and not c.get('nomodel'):
             ctx.traces_validated += 1
-            if model[i] != got:
+            if model[id(c)] != got:
                 n_dis += 1
                 ctx.disagreements_checked += 1
                 if n_dis <= 5:
                     ctx.broken_tie('PropWiz model and implementation disagree (%s)' % c['tag'],
-                                   {'src': c['src'], 'calls': c['calls'], 'impl': got, 'model': model[i]})
+                                   {'src': c['src'], 'calls': c['calls'], 'impl': got, 'model': model[id(c)]})
     ctx.sample({'source': cases[len(cases) // 3]['src'], 'calls': cases[len(cases) // 3]['calls'], 'observed': impl[len(cases) // 3]})
     ctx.sample({'source': cases[-1]['src'], 'calls': cases[-1]['calls'], 'observed': impl[len(cases) - 1]})
     ctx.sample({'exotic_source': ex[0]['src'], 'observed': impl[len(cases)]})
+
+
+def run_probe(ctx, anns, got):
+    """the zero-value derivation on the annotation grammar, one interpreter: implementation vs (a) the hand-written model
+    `dfa`, (b) the functions translated from the source text, (c) the Coq specification `implied`, (d) the independent
+    Python reference `implied()` (direct predicate)"""
+    model = None
+    try:
+        model = coq_retry(ctx, ['show_probe %s' % ty_coq(t) for t in anns],
+                          ['PropWiz', 'PropWizObj', 'T_PropWizDefaultsAlg'], prelude=PRELUDE + PROBE_PRELUDE)
+    except Exception as e:
+        ctx.broken_tie('model evaluation of the zero-value derivation failed: %s' % str(e)[:800])
+    n_dis = n_vio = 0
+    for i, t in enumerate(anns):
+        src = ty_src(t)
+        ctx.count(1, key='probe:' + src, nontrivial=t[0] != 'conc')
+        ctx.hist('probe_kind', t[0])
+        if i and json.dumps(reorder_key(anns[i - 1])) == json.dumps(reorder_key(t)) and anns[i - 1] != t:
+            ctx.hist('probe_reordered_pair', t[0])
+        exp = expect_tok(implied(t))
+        obs = got[i]
+        if effective(obs) != exp and n_vio < 4:
+            n_vio += 1
+            ctx.violation('the default derived from annotation %s is %r, the property implies %r' % (src, obs, exp),
+                          {'kind': 'probe', 'ann': src, 'expected': exp, 'header': HEADER + '    pass\n'})
+        if model is not None:
+            ctx.traces_validated += 1
+            hand, translated, spec = model[i].split('|')
+            if not (hand == translated == obs and spec == effective(obs)):
+                n_dis += 1
+                ctx.disagreements_checked += 1
+                if n_dis <= 3:
+                    ctx.broken_tie('zero-value derivation: model / translated source / implementation disagree',
+                                   {'annotation': src, 'impl': obs, 'model_dfa': hand, 'translated_source': translated,
+                                    'coq_spec': spec})
+    ctx.sample({'probe_annotation': ty_src(anns[len(anns) // 2]), 'observed': got[len(anns) // 2]})
+
+
+def reorder_key(t):
+    if t[0] == 'union':
+        return ['union', sorted(json.dumps(a) for a in t[1])]
+    if t[0] == 'lit':
+        return ['lit', sorted(json.dumps(v) for v in t[1])]
+    return t
 
 
 def first_diff(a, b):
@@ -1041,6 +1452,13 @@ def replay_demo(ctx, obj):
 def replay(ctx, obj, quiet=False):
     if 'finding' in obj:
         return replay_demo(ctx, obj)
+    if obj.get('kind') == 'probe':
+        got = ctx.impl('c16', {'probe': {'header': obj['header'], 'anns': [obj['ann']]}})['probe'][0]
+        if not quiet:
+            print('annotation:', obj['ann'])
+            print('expected default (effective):', obj['expected'])
+            print('observed Field               :', got)
+        return effective(got) == obj['expected']
     if obj.get('kind') != 'class':
         print('replay object names a broken tie, not an input: %s' % json.dumps(obj)[:1500])
         return False
